@@ -10,9 +10,12 @@ package jet
 
 // Everything the interpreter may change while executing template code. The parsed templates (all
 // node types, Template, Set) are deliberately absent: executing never modifies them (C10).
-//@ modset Interp := ghost CM, ghost NL, type Runtime.scope, type Runtime.context, type Runtime.content, type escapeeWriter.Writer, mapsof VarMap, ghost T, type sliceRanger.i, type sliceRanger.v, type mapRanger.iter, type mapRanger.hasMore, type chanRanger.v, type intsRanger.i, type intsRanger.val, mapsof map[reflect.Type]map[string][]int, global cachedStructsFieldIndex
+//@ modset Interp := ghost CM, ghost NL, type Runtime.scope, type Runtime.context, type Runtime.content, type escapeeWriter.Writer, mapsof VarMap, ghost T, type sliceRanger.i, type sliceRanger.v, type mapRanger.iter, type mapRanger.hasMore, type chanRanger.v, type intsRanger.i, type intsRanger.val, mapsof map[reflect.Type]map[string][]int
 
-//@ pred RtOK(st *Runtime) := st != nil && st.scope != nil && st.escapeeWriter != nil && st.escapeeWriter.set != nil && st.escapeeWriter.set.gmx != nil && SetOK(st.escapeeWriter.set)
+//@ pred RtOK(st *Runtime) := st != nil && st.scope != nil && st.escapeeWriter != nil && st.escapeeWriter.set != nil && st.escapeeWriter.set.gmx != nil && SetOK(st.escapeeWriter.set) && st.escapeeWriter.Writer != nil
+// RtX: what is known of the runtime when a construct is left by a panic: everything but the scope chain, which is
+// whatever the failing construct left (scopes pushed without a defer are not popped; there is no ghost depth counter)
+//@ pred RtX(st *Runtime) := st != nil && st.escapeeWriter != nil && st.escapeeWriter.set != nil && st.escapeeWriter.set.gmx != nil && SetOK(st.escapeeWriter.set) && st.escapeeWriter.Writer != nil
 // S(st): the interpreter state that enclosing constructs must leave as they found it.
 //@ pred SameS(st *Runtime) := st.scope == old(st.scope) && st.context == old(st.context) && st.content == old(st.content) && st.escapeeWriter.Writer == old(st.escapeeWriter.Writer)
 
@@ -50,12 +53,17 @@ package jet
 //@ func type:Func
 //@   trusted user code: assumed balanced
 //@   params a
+//@   requires RtOK(a.runtime) && WFArgs(a.args)
 //@   modifies @Interp
 //@   ensures a.runtime.scope == old(a.runtime.scope) && a.runtime.context == old(a.runtime.context) && a.runtime.content == old(a.runtime.content) && a.runtime.escapeeWriter.Writer == old(a.runtime.escapeeWriter.Writer)
+//@   anypanic
+//@   exsures RtX(a.runtime)
 //@ func (Renderer).Render
 //@   trusted user code: assumed balanced
 //@   params recv, st
 //@   modifies @Interp
+//@   anypanic
+//@   exsures RtX(st)
 //@   ensures SameS(st)
 //@ func (Ranger).Range
 //@   trusted user code or one of the pooled rangers
@@ -89,15 +97,14 @@ package jet
 // ---- scopes ---------------------------------------------------------------------------------------------
 
 //@ func (*Runtime).newScope
-//@   props C07 C13 C09
+//@   props C07 C13 C09 C12
 //@   requires RtOK(st)
 //@   modifies st.scope
 //@   nopanic
 //@   ensures [new-scope-chains-to-old] fresh(st.scope) && st.scope.parent == old(st.scope) && st.scope.blocks == old(st.scope.blocks) && st.scope.variables != nil && fresh(st.scope.variables)
 
 //@ func (*Runtime).releaseScope
-//@   props C07 C13 C09
-//@   nocrash
+//@   props C07 C13 C09 C12
 //@   requires st != nil
 //@   modifies st.scope
 //@   nopanic
@@ -110,16 +117,17 @@ package jet
 //@   ensures [context-is-dot] result == r.context
 
 //@ func (*scope).getBlock
-//@   props C08
+//@   props C08 C12
 //@   requires st != nil
 //@   nopanic
 //@   loop 0 invariant st != nil
 //@   ensures [innermost-scope-wins] has(old(st.blocks), name) ==> has == true && block == old(st.blocks)[name]
 //@   ensures [second-scope-next] !has(old(st.blocks), name) && old(st.parent) != nil && has(old(st.parent.blocks), name) ==> has == true && block == old(st.parent.blocks)[name]
 //@   ensures [no-scope-no-block] !has(old(st.blocks), name) && old(st.parent) == nil ==> has == false
+//@   assumes [block-tables-hold-well-formed-blocks] has ==> block != nil && WF(iface(block, "*BlockNode"))
 
 //@ func (*Runtime).setValue
-//@   props C07 C18
+//@   props C07 C18 C12
 //@   requires RtOK(state)
 //@   modifies mapsof VarMap
 //@   nopanic
@@ -154,7 +162,7 @@ package jet
 //@   ensures [letglobal-single-scope] old(state.scope.parent) == nil || old(state.scope.parent.variables) == nil ==> has(state.scope.variables, name)
 
 //@ func (*Runtime).resolve
-//@   props C07 C18 C17 C11
+//@   props C07 C18 C17 C11 C12
 //@   requires RtOK(state)
 //@   modifies ghost Held
 //@   nopanic
@@ -165,6 +173,7 @@ package jet
 //@   ensures [scopes-before-globals-before-builtins] name != "." && !has(state.scope.variables, name) && state.scope.parent == nil && has(state.escapeeWriter.set.globals, name) ==> result1 == nil && result0 == EfaceOf(state.escapeeWriter.set.globals[name])
 //@   ensures [builtins-last] name != "." && !has(state.scope.variables, name) && state.scope.parent == nil && !has(state.escapeeWriter.set.globals, name) ==> ite(has(defaultVariables, name), result1 == nil && result0 == EfaceOf(defaultVariables[name]), result1 != nil)
 
+//@ pred WFArgs(a CallArgs) := forall(i, 0, len(a.Exprs), a.Exprs[i] != nil && WF(a.Exprs[i]))
 //@ ufunc EfaceOf(reflect.Value) reflect.Value
 //@ func indirectEface
 //@   trusted EfaceOf is defined as the result of indirectEface (a deterministic function of v built from reflect calls only)
@@ -179,216 +188,270 @@ package jet
 //@   callsite (*Runtime).resolve count 1
 
 //@ func (*Runtime).MustResolve
-//@   props C18
+//@   props C18 C12
 //@   requires RtOK(state)
 //@   modifies ghost Held
 //@   callsite (*Runtime).resolve count 1
+//@   anypanic
+//@   exsures [runtime-valid-on-panic] RtX(state)
 
 // ---- helpers that do not touch interpreter state (their bodies are checked to store nothing) ----
 //@ func notNil
-//@   props C10 C07
-//@   nocrash
+//@   props C10 C07 C17 C12
+//@   ensures [invalid-is-nil] !RvValid(v) ==> result == false
+//@   ensures [nilable-kinds-ask-isnil] RvValid(v) && (RvKind(v) == 18 || RvKind(v) == 19 || RvKind(v) == 20 || RvKind(v) == 21 || RvKind(v) == 22 || RvKind(v) == 23) ==> result == !RvIsNil(v)
+//@   ensures [other-kinds-always-exist] RvValid(v) && !(RvKind(v) == 18 || RvKind(v) == 19 || RvKind(v) == 20 || RvKind(v) == 21 || RvKind(v) == 22 || RvKind(v) == 23) ==> result == true
 //@ func toInt
-//@   props C10 C07
-//@   nocrash
+//@   props C10 C07 C12
 //@ func toUint
-//@   props C10 C07
-//@   nocrash
+//@   props C10 C07 C12
 //@ func toFloat
-//@   props C10 C07
-//@   nocrash
+//@   props C10 C07 C12
 //@ func getTypeString
-//@   props C10 C07
-//@   nocrash
+//@   props C10 C07 C12
 //@ func isUint
-//@   props C10 C07
-//@   nocrash
+//@   props C10 C07 C12
 //@ func isInt
-//@   props C10 C07
-//@   nocrash
+//@   props C10 C07 C12
 //@ func isFloat
-//@   props C10 C07
-//@   nocrash
+//@   props C10 C07 C12
 //@ func checkEquality
-//@   props C10 C07
-//@   nocrash
-//@   loop 0 invariant true
-//@   loop 1 invariant true
-//@   loop 2 invariant true
+//@   props C10 C07 C12
+//@   loop 0 invariant 0 <= i && vlen == RvLen(v1) && vlen == RvLen(v2)
+//@   loop 1 invariant 0 <= i && vlen == RvLen(v1) && vlen == RvLen(v2)
+//@   loop 2 invariant 0 <= i && n == RvNumField(v1)
 //@   loop 3 invariant true
 //@ func isTrue
-//@   props C10 C07
-//@   nocrash
+//@   props C10 C07 C12
 //@ func canNumber
-//@   props C10 C07
-//@   nocrash
+//@   props C10 C07 C12
 //@ func castInt64
-//@   props C10 C07
-//@   nocrash
+//@   props C10 C07 C12
 //@ func indirect
-//@   props C10 C07
-//@   nocrash
+//@   props C10 C07 C06 C12
 //@   loop 0 invariant true
 //@ func indirectInterface
-//@   props C10 C07
-//@   nocrash
+//@   props C10 C07 C06 C12
 //@ func indexArg
 //@   props C10 C07 C06 C12
 //@   ensures [index-is-in-range-or-an-error] result1 == nil ==> 0 <= result0 && result0 < cap
 //@ func buildCache
-//@   props C10
-//@   nocrash
+//@   props C10 C06 C12
+//@   requires cache != nil && typ != nil
 //@   modifies map cache
-//@   loop 0 invariant true
+//@   loop 0 invariant 0 <= i
+//@   loop 0 invariant [entries-are-private-copies] forallT(k, "string", has(cache, k) && (!old(has(cache, k)) || cache[k] != old(cache[k])) ==> fresh(cache[k]) && len(cache[k]) > len(parent))
+//@   loop 0 invariant [shallowest-definition-wins] forallT(k, "string", old(has(cache, k)) ==> has(cache, k) && len(cache[k]) <= len(old(cache[k])))
+//@   ensures [entries-are-private-copies] {C06} forallT(k, "string", has(cache, k) && (!old(has(cache, k)) || cache[k] != old(cache[k])) ==> fresh(cache[k]) && len(cache[k]) > len(parent))
+//@   ensures [shallowest-definition-wins] {C06} forallT(k, "string", old(has(cache, k)) ==> has(cache, k) && len(cache[k]) <= len(old(cache[k])))
 //@ func resolveIndex
 //@   props C10 C11 C06 C12
-//@   requires cachedStructsFieldIndex != nil
-//@   modifies mapsof map[reflect.Type]map[string][]int, global cachedStructsFieldIndex, ghost Held
+//@   modifies mapsof map[reflect.Type]map[string][]int, ghost Held
 //@   ensures [lock-released] Held == old(Held)
 //@   loop 0 invariant true
+//@ func fieldByIndex
+//@   props C06 C12 C10 C11
+//@   loop 0 invariant true
 //@ func getRanger
-//@   props C10 C05
-//@   nocrash
+//@   props C10 C05 C12
 //@   modifies type sliceRanger.i, type sliceRanger.v, type mapRanger.iter, type mapRanger.hasMore, type chanRanger.v
+//@   ensures [a-ranger-or-an-error] err == nil ==> r != nil && cleanup != nil
 
 // ---- evaluation: every evaluator leaves S(st) as it found it on normal return ----------------------
 //@ func (*Runtime).evalPrimaryExpressionGroup
-//@   props C07 C13 C10
-//@   nocrash
-//@   requires RtOK(st)
+//@   props C07 C13 C10 C06 C12
+//@   requires RtOK(st) && node != nil && WF(node)
 //@   modifies @Interp
 //@   ensures [balanced] SameS(st)
+//@   anypanic
+//@   exsures [runtime-valid-on-panic] RtX(st)
 //@ func (*Runtime).evalNumericComparativeExpression
-//@   props C07 C13 C10
-//@   nocrash
-//@   requires RtOK(st)
+//@   props C07 C13 C10 C12
+//@   requires RtOK(st) && node != nil && WF(iface(node, "*NumericComparativeExprNode"))
 //@   modifies @Interp
 //@   ensures [balanced] SameS(st)
+//@   anypanic
+//@   exsures [runtime-valid-on-panic] RtX(st)
 //@ func (*Runtime).evalLogicalExpression
-//@   props C07 C13 C10
-//@   nocrash
-//@   requires RtOK(st)
+//@   props C07 C13 C10 C12
+//@   requires RtOK(st) && node != nil && WF(iface(node, "*LogicalExprNode"))
 //@   modifies @Interp
 //@   ensures [balanced] SameS(st)
+//@   anypanic
+//@   exsures [runtime-valid-on-panic] RtX(st)
 //@ func (*Runtime).evalComparativeExpression
-//@   props C07 C13 C10
-//@   nocrash
-//@   requires RtOK(st)
+//@   props C07 C13 C10 C12
+//@   requires RtOK(st) && node != nil && WF(iface(node, "*ComparativeExprNode"))
 //@   modifies @Interp
 //@   ensures [balanced] SameS(st)
+//@   anypanic
+//@   exsures [runtime-valid-on-panic] RtX(st)
 //@ func (*Runtime).evalMultiplicativeExpression
-//@   props C07 C13 C10
-//@   nocrash
-//@   requires RtOK(st)
+//@   props C07 C13 C10 C12
+//@   requires RtOK(st) && node != nil && WF(iface(node, "*MultiplicativeExprNode"))
 //@   modifies @Interp
 //@   ensures [balanced] SameS(st)
+//@   anypanic
+//@   exsures [runtime-valid-on-panic] RtX(st)
 //@ func (*Runtime).evalAdditiveExpression
-//@   props C07 C13 C10
-//@   nocrash
-//@   requires RtOK(st)
+//@   props C07 C13 C10 C12
+//@   requires RtOK(st) && node != nil && WF(iface(node, "*AdditiveExprNode"))
 //@   modifies @Interp
 //@   ensures [balanced] SameS(st)
+//@   anypanic
+//@   exsures [runtime-valid-on-panic] RtX(st)
 //@ func (*Runtime).evalBaseExpressionGroup
-//@   props C07 C13 C10
-//@   nocrash
-//@   requires RtOK(st)
+//@   props C07 C13 C10 C06 C12
+//@   requires RtOK(st) && node != nil && WF(node)
 //@   modifies @Interp
-//@   loop 0 invariant SameS(st) && RtOK(st)
+//@   loop 0 invariant SameS(st) && RtOK(st) && 0 <= i
 //@   ensures [balanced] SameS(st)
+//@   anypanic
+//@   exsures [runtime-valid-on-panic] RtX(st)
 //@ func (*Runtime).evalCallExpression
-//@   props C07 C13 C10
-//@   nocrash
-//@   requires RtOK(st)
+//@   props C07 C13 C10 C12 C14
+//@   requires RtOK(st) && WFArgs(args) && RvKind(baseExpr) == 19
 //@   modifies @Interp
 //@   ensures [balanced] SameS(st)
+//@   anypanic
+//@   exsures [runtime-valid-on-panic] RtX(st)
 //@ func (*Runtime).evalPipeCallExpression
-//@   props C07 C13 C10
-//@   nocrash
-//@   requires RtOK(st)
+//@   props C07 C13 C10 C12 C14
+//@   requires RtOK(st) && WFArgs(args) && RvKind(baseExpr) == 19
 //@   modifies @Interp, cell pipedArg
 //@   ensures [balanced] SameS(st)
+//@   anypanic
+//@   exsures [runtime-valid-on-panic] RtX(st)
 //@ func (*Runtime).evalCommandExpression
-//@   props C07 C13 C10
-//@   nocrash
-//@   requires RtOK(st)
+//@   props C07 C13 C10 C12 C14
+//@   requires RtOK(st) && node != nil && WFCmd(node)
 //@   modifies @Interp
 //@   ensures [balanced] SameS(st)
+//@   anypanic
+//@   exsures [runtime-valid-on-panic] RtX(st)
 //@ func (*Runtime).evalChainNodeExpression
-//@   props C07 C13 C10
-//@   nocrash
-//@   requires RtOK(st)
+//@   props C07 C13 C10 C06 C12 C17
+//@   requires RtOK(st) && node != nil && WF(iface(node, "*ChainNode"))
 //@   modifies @Interp
-//@   loop 0 invariant SameS(st) && RtOK(st)
+//@   loop 0 invariant SameS(st) && RtOK(st) && 0 <= i
+//@   loop 0 invariant [one-lookup-per-member] {C06} visits("resolveIndex", 0) == i && i <= len(node.Field)
+//@   check [only-a-missing-final-map-entry-yields-nil] {C06} result1 == nil && !RvValid(result0) ==> visits("resolveIndex", 0) == len(node.Field)
+//@   check [every-member-is-looked-up] {C06} result1 == nil ==> visits("resolveIndex", 0) == len(node.Field)
+//@   callsite resolveIndex 0 requires [members-are-looked-up-in-order-on-the-previous-result] {C06} indexAsStr == caller.node.Field[caller.i] && !RvValid(index) && v == caller.resolved
 //@   ensures [balanced] SameS(st)
+//@   anypanic
+//@   exsures [runtime-valid-on-panic] RtX(st)
 //@ func (*Runtime).evalSafeWriter
-//@   props C07 C13 C10 C01
-//@   nocrash
-//@   requires RtOK(st)
+//@   props C07 C13 C10 C01 C12 C14
+//@   requires RtOK(st) && node != nil && WFCmd(node) && RvValid(term) && RvTypeOf(term) == safeWriterType
 //@   modifies @Interp
 //@   callsite fastprinter.PrintValue * requires [safewriter-output-bypasses-the-escaper-once] {C01} istype(w, "*escapeWriter") && as(w, "*escapeWriter").rawWriter == st.escapeeWriter.Writer && fresh(as(w, "*escapeWriter"))
 //@   callsite fastprinter.PrintValue count 2
-//@   loop 0 invariant SameS(st) && RtOK(st)
-//@   loop 1 invariant SameS(st) && RtOK(st)
+//@   loop 0 invariant SameS(st) && RtOK(st) && 0 <= i
+//@   loop 1 invariant SameS(st) && RtOK(st) && 0 <= i
 //@   ensures [balanced] SameS(st)
+//@   anypanic
+//@   exsures [runtime-valid-on-panic] RtX(st)
 //@ func (*Runtime).evalCommandPipeExpression
-//@   props C07 C13 C10
-//@   nocrash
-//@   requires RtOK(st)
+//@   props C07 C13 C10 C12 C14
+//@   requires RtOK(st) && node != nil && WFCmd(node)
 //@   modifies @Interp
 //@   ensures [balanced] SameS(st)
+//@   anypanic
+//@   exsures [runtime-valid-on-panic] RtX(st)
 //@ func (*Runtime).evalPipelineExpression
-//@   props C07 C13 C10 C01 C14
-//@   nocrash
-//@   requires RtOK(st)
+//@   props C07 C13 C10 C01 C14 C12
+//@   requires RtOK(st) && node != nil && WFPipe(node)
 //@   modifies @Interp
 //@   callsite (*Runtime).evalCommandPipeExpression 0 requires [writer-command-must-be-last] {C01,C14} !caller.safeWriter
-//@   loop 0 invariant SameS(st) && RtOK(st)
+//@   loop 0 invariant SameS(st) && RtOK(st) && 1 <= i
 //@   ensures [balanced] SameS(st)
+//@   anypanic
+//@   exsures [runtime-valid-on-panic] RtX(st)
 //@ func (*Runtime).evaluateArgs
-//@   props C07 C13 C10
-//@   nocrash
-//@   requires RtOK(st)
+//@   props C07 C13 C10 C12 C14
+//@   requires RtOK(st) && WFArgs(args) && fnType != nil && TKind(fnType) == 19
 //@   modifies @Interp, cell pipedArg
-//@   loop 0 invariant SameS(st) && RtOK(st)
-//@   loop 1 invariant SameS(st) && RtOK(st)
+//@   loop 0 invariant SameS(st) && RtOK(st) && 0 <= i && slot == i + ite(!args.HasPipeSlot && pipedArg != nil, 1, 0) && len(argValues) == numArgs
+//@   loop 1 invariant SameS(st) && RtOK(st) && 0 <= i && slot == i + ite(!args.HasPipeSlot && pipedArg != nil, 1, 0) && len(argValues) == numArgs
+//@   loop 0 invariant [typed-prefix] {C14} fresh(argValues) && forall(k, 0, slot, RvValid(argValues[k]) && TAssign(RvTypeOf(argValues[k]), ParamT(fnType, k)))
+//@   loop 1 invariant [typed-prefix] {C14} fresh(argValues) && slot >= numArgsRequired && forall(k, 0, slot, RvValid(argValues[k]) && TAssign(RvTypeOf(argValues[k]), ParamT(fnType, k)))
+//@   ensures [argument-count-matches-the-signature] {C14} result1 == nil ==> ite(TVariadic(fnType), len(result0) >= TNumIn(fnType) - 1, len(result0) == TNumIn(fnType)) && len(result0) == len(args.Exprs) + ite(!args.HasPipeSlot && pipedArg != nil, 1, 0)
+//@   ensures [arguments-are-valid-and-assignable-to-the-parameters] {C14} result1 == nil ==> forall(k, 0, len(result0), RvValid(result0[k]) && TAssign(RvTypeOf(result0[k]), ParamT(fnType, k)))
+//@   callsite (*Runtime).evalPrimaryExpressionGroup * requires [arguments-evaluated-left-to-right-once] {C14} node == args.Exprs[caller.i]
 //@   ensures [balanced] SameS(st)
+//@   anypanic
+//@   exsures [runtime-valid-on-panic] RtX(st)
 //@ func (*Runtime).executeSet
-//@   props C07 C13 C10
-//@   nocrash
-//@   requires RtOK(st)
+//@   props C07 C13 C10 C06 C12
+//@   requires RtOK(st) && left != nil && WF(left) && (NTF(left) == NodeIdentifier || NTF(left) == NodeChain || NTF(left) == NodeField)
 //@   modifies @Interp
-//@   loop 0 invariant SameS(st) && RtOK(st)
-//@   loop 1 invariant SameS(st) && RtOK(st)
+//@   loop 0 invariant SameS(st) && RtOK(st) && 0 <= i && lef == len(fields) - 1 && lef >= 0
+//@   loop 1 invariant SameS(st) && RtOK(st) && lef == len(fields) - 1 && lef >= 0
 //@   ensures [balanced] SameS(st)
+//@   anypanic
+//@   exsures [runtime-valid-on-panic] RtX(st)
 //@ func (*Runtime).executeSetList
-//@   props C07 C13 C10
-//@   nocrash
-//@   requires RtOK(st)
+//@   props C07 C13 C10 C12 C17
+//@   requires RtOK(st) && set != nil && WFSet(set) && SetBalanced(set)
 //@   modifies @Interp
-//@   loop 0 invariant SameS(st) && RtOK(st)
+//@   callsite (*Runtime).executeSet 1 requires [lookup-ok-is-true-iff-the-entry-exists] {C17} RvValid(lastret("(*Runtime).evalPrimaryExpressionGroup", 0)) && right == valueBoolTRUE && left == caller.set.Left[1]
+//@   callsite (*Runtime).executeSet 2 requires [lookup-ok-is-false-iff-the-entry-is-absent] {C17} !RvValid(lastret("(*Runtime).evalPrimaryExpressionGroup", 0)) && right == valueBoolFALSE && left == caller.set.Left[1]
+//@   callsite (*Runtime).executeSet 0 requires [lookup-value-goes-to-the-first-variable] {C17} right == lastret("(*Runtime).evalPrimaryExpressionGroup", 0) && left == caller.set.Left[0]
+//@   callsite (*Runtime).executeSet count 4
+//@   loop 0 invariant SameS(st) && RtOK(st) && 0 <= i
 //@   ensures [balanced] SameS(st)
+//@   anypanic
+//@   exsures [runtime-valid-on-panic] RtX(st)
 //@ func (*Runtime).executeLetList
-//@   props C07 C13 C10
-//@   nocrash
-//@   requires RtOK(st)
+//@   props C07 C13 C10 C12 C17
+//@   requires RtOK(st) && set != nil && WFSet(set) && set.Let && SetBalanced(set) && st.scope.variables != nil
 //@   modifies @Interp
-//@   loop 0 invariant SameS(st) && RtOK(st)
+//@   ensures [declared-lookup-ok-is-true-iff-the-entry-exists] {C17} set.IndexExprGetLookup && NTF(set.Left[1]) != NodeUnderscore ==> st.scope.variables[as(set.Left[1], "*IdentifierNode").Ident] == ite(RvValid(lastret("(*Runtime).evalPrimaryExpressionGroup", 0)), valueBoolTRUE, valueBoolFALSE)
+//@   loop 0 invariant SameS(st) && RtOK(st) && 0 <= i
 //@   ensures [balanced] SameS(st)
+//@   anypanic
+//@   exsures [runtime-valid-on-panic] RtX(st)
 
 //@ func (*Runtime).isSet
-//@   props C17 C07
-//@   nocrash
-//@   requires RtOK(st)
+//@   props C17 C07 C06
+//@   requires RtOK(st) && node != nil && WF(node)
 //@   modifies @Interp
 //@   nopanic
-//@   loop 0 invariant RtOK(st)
+//@   loop 0 invariant RtOK(st) && 0 <= i
+//@   ensures [runtime-valid-after-isset] RtX(st)
+//@   check [identifier-is-set-iff-it-resolves-to-a-non-nil-value] {C17} NTF(node) == NodeIdentifier && !recovered() && ncalls("(*Runtime).resolve") == 1 && ncalls("notNil") == 1 ==> ok == (lastret("(*Runtime).resolve", 1) == nil && lastret("notNil", 0))
+//@   check [chain-is-set-iff-it-resolves-to-a-non-nil-value] {C17} NTF(node) == NodeChain && !recovered() && ncalls("notNil") == 1 ==> ok == (lastret("(*Runtime).evalChainNodeExpression", 1) == nil && lastret("notNil", 0))
+//@   callsite notNil * requires [existence-is-asked-of-the-resolved-value] {C17} ite(NTF(caller.node) == NodeIdentifier, v == lastret("(*Runtime).resolve", 0), ite(NTF(caller.node) == NodeChain, v == lastret("(*Runtime).evalChainNodeExpression", 0), v == lastret("resolveIndex", 0)))
 
-//@ func (*Arguments).Get
-//@   props C14 C18
-//@   nocrash
-//@   requires a != nil && RtOK(a.runtime)
+// Off(a): 1 when the call has an implicit piped first argument (a piped value and no '_' slot), else 0
+//@ pred Implicit(a *Arguments) := a.pipedVal != nil && !a.args.HasPipeSlot
+//@ func (*Arguments).NumOfArguments
+//@   props C14 C17
+//@   requires a != nil
+//@   nopanic
+//@   ensures [piped-value-counts-as-first-argument] result == len(a.args.Exprs) + ite(Implicit(a), 1, 0)
+//@ func (*Arguments).IsSet
+//@   props C17 C14
+//@   requires a != nil && RtOK(a.runtime) && WFArgs(a.args)
 //@   modifies @Interp
+//@   nopanic
+//@   ensures [out-of-range-arguments-are-unset] argumentIndex < 0 || argumentIndex >= len(a.args.Exprs) + ite(Implicit(a), 1, 0) ==> result == false
+//@   ensures [implicit-piped-argument-is-set] argumentIndex == 0 && Implicit(a) ==> result == true
+//@   callsite (*Runtime).isSet 0 requires [isset-examines-the-indexed-argument] {C17} node == a.args.Exprs[caller.argumentIndex - ite(Implicit(a), 1, 0)] && NTF(node) != NodeUnderscore
+//@   callsite (*Runtime).isSet count 1
+//@ func (*Arguments).Get
+//@   props C14 C18 C12
+//@   requires a != nil && RtOK(a.runtime) && WFArgs(a.args)
+//@   modifies @Interp
+//@   ensures [implicit-piped-argument-comes-first] argumentIndex == 0 && Implicit(a) ==> result == old(*a.pipedVal)
+//@   ensures [placeholder-yields-the-piped-value] 0 <= argumentIndex - ite(Implicit(a), 1, 0) && argumentIndex - ite(Implicit(a), 1, 0) < len(a.args.Exprs) && !(argumentIndex == 0 && Implicit(a)) && NTF(a.args.Exprs[argumentIndex - ite(Implicit(a), 1, 0)]) == NodeUnderscore ==> result == old(*a.pipedVal)
+//@   ensures [out-of-range-arguments-are-invalid] argumentIndex < 0 || argumentIndex >= len(a.args.Exprs) + ite(Implicit(a), 1, 0) ==> !RvValid(result)
+//@   callsite (*Runtime).evalPrimaryExpressionGroup 0 requires [get-evaluates-the-indexed-argument] {C14} node == a.args.Exprs[caller.argumentIndex - ite(Implicit(a), 1, 0)]
+//@   callsite (*Runtime).evalPrimaryExpressionGroup count 1
 //@   ensures a.runtime.scope == old(a.runtime.scope) && a.runtime.context == old(a.runtime.context) && a.runtime.content == old(a.runtime.content) && a.runtime.escapeeWriter.Writer == old(a.runtime.escapeeWriter.Writer)
+//@   anypanic
+//@   exsures [runtime-valid-on-panic] RtX(a.runtime)
 
 // ---- executors ------------------------------------------------------------------------------------------
 
@@ -402,40 +465,51 @@ package jet
 
 // Runtime.content: the closure built by executeYieldBlock (executeYieldBlock$1 refines this)
 //@ func field:Runtime.content
-//@   props C07 C08 C13
+//@   props C07 C08 C13 C12
 //@   params st, expression
-//@   requires RtOK(st)
+//@   requires RtOK(st) && (expression != nil ==> WF(expression))
 //@   modifies @Interp
 //@   ensures [content-closure-balanced] SameS(st)
+//@   anypanic
+//@   exsures [runtime-valid-on-panic] RtX(st)
+//@   anypanic
+//@   exsures [runtime-valid-on-panic] RtX(st)
 
 //@ func (*Runtime).executeYieldBlock$1
+//@   props C08
 //@   refines field:Runtime.content
-//@   nocrash
-//@   requires myscope != nil
+//@   requires myscope != nil && content != nil && WFL(content)
 //@   callsite (*Runtime).executeList * requires st.scope == myscope && st.content == mycontent
 //@   callsite (*Runtime).executeList count 2
 
 //@ func (*Runtime).executeYieldBlock
-//@   props C07 C08 C13 C10
-//@   nocrash
-//@   requires RtOK(st)
+//@   props C07 C08 C13 C10 C12
+//@   requires RtOK(st) && block != nil && WF(iface(block, "*BlockNode")) && blockParam != nil && WFParams(blockParam) && yieldParam != nil && WFParams(yieldParam) && (expression != nil ==> WF(expression)) && (content != nil ==> WFL(content))
 //@   modifies @Interp
-//@   loop 0 invariant RtOK(st) && st.scope.parent == old(st.scope) && st.context == old(st.context) && st.content == old(st.content) && st.escapeeWriter.Writer == old(st.escapeeWriter.Writer)
-//@   loop 1 invariant RtOK(st) && st.scope.parent == old(st.scope) && st.context == old(st.context) && st.content == old(st.content) && st.escapeeWriter.Writer == old(st.escapeeWriter.Writer)
+//@   loop 0 entry [every-yield-argument-is-bound] {C08} i == 0
+//@   loop 1 entry [every-declared-parameter-gets-its-default-unless-bound] {C08} i == 0
+//@   check [every-declared-parameter-is-bound] {C08} !panicking() && (len(blockParam.List) > 0 || len(yieldParam.List) > 0) ==> visits("(*Runtime).newScope", 0) == 1
+//@   callsite (*Runtime).executeList 0 requires [block-body-runs-with-the-yield-context] {C08} list == caller.block.List && st.context == lastret("(*Runtime).evalPrimaryExpressionGroup", 0)
+//@   callsite (*Runtime).executeList 1 requires [block-body-runs-in-the-parameter-scope] {C08} list == caller.block.List && st.context == old(st.context) && ite(len(caller.blockParam.List) > 0 || len(caller.yieldParam.List) > 0, st.scope.parent == old(st.scope), st.scope == old(st.scope))
+//@   loop 0 invariant RtOK(st) && 0 <= i && st.scope.variables != nil && st.scope.parent == old(st.scope) && st.context == old(st.context) && st.content == old(st.content) && st.escapeeWriter.Writer == old(st.escapeeWriter.Writer)
+//@   loop 1 invariant RtOK(st) && 0 <= i && st.scope.variables != nil && st.scope.parent == old(st.scope) && st.context == old(st.context) && st.content == old(st.content) && st.escapeeWriter.Writer == old(st.escapeeWriter.Writer)
 //@   ensures [yield-balanced] SameS(st)
+//@   anypanic
+//@   exsures [runtime-valid-on-panic] RtX(st)
 
 //@ func (*Runtime).executeList
-//@   props C07 C13 C10 C09 C05 C12
-//@   nocrash
-//@   requires RtOK(st)
+//@   props C07 C13 C10 C09 C05 C12 C08
+//@   requires RtOK(st) && list != nil && WFL(list)
 //@   modifies @Interp
-//@   loop 0 invariant [rt] RtOK(st)
+//@   loop 0 invariant [rt] RtOK(st) && 0 <= i
+//@   loop 0 invariant [vars] inNewScope ==> st.scope.variables != nil
+//@   loop 1 invariant [vars] inNewScope ==> ite(isLet, st.scope.parent.variables != nil, st.scope.variables != nil)
 //@   loop 0 invariant [ctx] st.context == old(st.context)
 //@   loop 0 invariant [content] st.content == old(st.content)
 //@   loop 0 invariant [writer] st.escapeeWriter.Writer == old(st.escapeeWriter.Writer)
 //@   loop 0 invariant [defer] deferred(0) == inNewScope
 //@   loop 0 invariant [scope] ite(inNewScope, st.scope.parent == old(st.scope), st.scope == old(st.scope))
-//@   loop 1 invariant [rt] RtOK(st)
+//@   loop 1 invariant [rt] RtOK(st) && (isLet ==> st.scope.variables != nil) && ranger != nil && cleanup != nil
 //@   loop 1 invariant [content] st.content == old(st.content)
 //@   loop 1 invariant [writer] st.escapeeWriter.Writer == old(st.escapeeWriter.Writer)
 //@   loop 1 invariant [defer] deferred(0) == inNewScope
@@ -449,7 +523,13 @@ package jet
 //@   callsite (*Runtime).executeList 1 requires [else-branch-taken-when-falsy] {C05} !lastret("isTrue", 0) && list == caller.node.ElseList
 //@   callsite (*Runtime).executeList 2 requires [range-binds-dot-only-without-value-variable] {C05} list == caller.node.List && ite(caller.valVarSlot < 0, st.context == caller.rangeValue, st.context == caller.context)
 //@   callsite (*Runtime).executeList 3 requires [range-else-iff-no-elements] {C05} lastret("(Ranger).Range", 2) && list == caller.node.ElseList
+//@   anypanic
+//@   exsures [runtime-valid-on-panic] RtX(st)
 
+//@   callsite (*Runtime).executeYieldBlock 0 requires [yield-renders-the-resolved-block-with-the-yield-arguments] {C08} block == lastret("(*scope).getBlock", 0) && blockParam == block.Parameters && yieldParam == caller.node.Parameters && expression == caller.node.Expression && content == caller.node.Content
+//@   callsite (*Runtime).executeYieldBlock 1 requires [definition-site-renders-the-most-derived-block-with-its-own-defaults] {C08} ite(lastret("(*scope).getBlock", 1), block == lastret("(*scope).getBlock", 0), block == caller.node) && blockParam == block.Parameters && yieldParam == block.Parameters && expression == block.Expression && content == block.Content
+//@   callsite (*Runtime).executeYieldBlock count 2
+//@   callsite (*scope).getBlock * requires [blocks-are-looked-up-by-name-from-the-innermost-scope] {C08} name == caller.node.Name && st == caller.st.scope
 //@   callsite fastprinter.PrintValue 0 requires [action-output-goes-through-the-escaping-writer] {C01} w == iface(st.escapeeWriter, "*escapeeWriter")
 //@   callsite fastprinter.PrintValue count 1
 //@   callsite (io.Writer).Write 0 requires [text-is-written-raw-and-unmodified] {C01,C03} w == st.escapeeWriter.Writer && b == caller.node.Text
@@ -461,36 +541,40 @@ package jet
 //@   ensures [list-balanced-writer] st.escapeeWriter.Writer == old(st.escapeeWriter.Writer)
 
 //@ func (*Runtime).executeTry
-//@   props C13 C07 C10
-//@   nocrash
-//@   requires RtOK(st)
+//@   props C13 C07 C10 C12
+//@   requires RtOK(st) && try != nil && WF(iface(try, "*TryNode"))
 //@   modifies @Interp
 //@   ensures [try-leaves-no-trace] SameS(st)
 //@   callsite (*Runtime).executeList 1 requires [try-body-renders-into-a-fresh-buffer] {C13,C01} st.escapeeWriter.Writer == iface(caller.buf, "*bytes.Buffer") && fresh(caller.buf) && st.escapeeWriter == old(st.escapeeWriter)
 //@   callsite io.Copy 0 requires [buffer-copied-only-after-success] {C13} dst == old(st.escapeeWriter.Writer) && src == iface(caller.buf, "*bytes.Buffer") && !panicking()
 //@   callsite io.Copy count 1
+//@   anypanic
+//@   exsures [runtime-valid-on-panic] RtX(st)
 
 //@ func (*Runtime).executeInclude
-//@   props C09 C07 C13
-//@   nocrash
-//@   requires RtOK(st)
+//@   props C09 C07 C13 C12
+//@   requires RtOK(st) && node != nil && WF(iface(node, "*IncludeNode"))
 //@   modifies @Interp
 //@   loop 0 invariant RtOK(st) && st.scope.parent == old(st.scope) && st.content == old(st.content) && st.escapeeWriter.Writer == old(st.escapeeWriter.Writer) && deferred(0)
-//@   loop 0 invariant [root-walk] t != nil && RootOf(t) == RootOf(lastret("(*Set).getSiblingTemplate", 0)) && Root == t.Root && st.scope.blocks == lastret("(*Set).getSiblingTemplate", 0).processedBlocks
+//@   loop 0 invariant [root-walk] t != nil && TplOK(t) && RootOf(t) == RootOf(lastret("(*Set).getSiblingTemplate", 0)) && Root == t.Root && st.scope.blocks == lastret("(*Set).getSiblingTemplate", 0).processedBlocks
 //@   loop 0 invariant [include-context] ite(node.Context != nil, deferred(1) && context == old(st.context), st.context == old(st.context))
 //@   ensures [include-leaks-nothing] SameS(st)
 //@   callsite (*Set).getSiblingTemplate 0 requires [include-resolves-against-includer] siblingPath == caller.node.TemplatePath && cacheAfterParsing
 //@   callsite (*Runtime).executeList 0 requires [include-renders-root-with-its-blocks] list == RootOf(lastret("(*Set).getSiblingTemplate", 0)).Root && st.scope.blocks == lastret("(*Set).getSiblingTemplate", 0).processedBlocks && st.scope.parent == old(st.scope) && (caller.node.Context == nil ==> st.context == old(st.context))
 //@   callsite (*Runtime).executeList count 1
+//@   anypanic
+//@   exsures [runtime-valid-on-panic] RtX(st)
 
 //@ func (*Runtime).YieldBlock
-//@   props C18 C07
+//@   props C18 C07 C08 C12
 //@   nocrash
 //@   requires RtOK(st)
 //@   modifies @Interp
 //@   ensures [yieldblock-balanced] SameS(st)
 //@   check [yieldblock-renders-exactly-once] ncalls("(*Runtime).executeList") == 1
 //@   callsite (*Runtime).executeList * requires [yieldblock-context] ite(caller.context != nil, st.context == RvOf(caller.context), st.context == old(st.context))
+//@   anypanic
+//@   exsures [runtime-valid-on-panic] RtX(st)
 
 
 // AST invariant (assumed here, established by the constructors: TemplatePath is t.Name of the template being
@@ -529,10 +613,11 @@ package jet
 
 //@ func (*Template).Execute
 //@   props C10 C08 C12
+//@   anypanic
 //@   nocrash
-//@   requires t != nil && t.set != nil && t.set.gmx != nil && SetOK(t.set)
+//@   requires t != nil && t.set != nil && t.set.gmx != nil && SetOK(t.set) && w != nil && TplOK(t)
 //@   modifies @Interp, type Runtime.escapeeWriter, type escapeeWriter.set, type scope.blocks, type scope.variables, type scope.parent
-//@   loop 0 invariant [root-walk] t != nil && RootOf(t) == RootOf(old(t))
+//@   loop 0 invariant [root-walk] t != nil && TplOK(t) && RootOf(t) == RootOf(old(t))
 //@   callsite (*sync.Pool).Put 0 requires [pool-invariant-at-put] p == gaddr(pool_State) && istype(x, "*Runtime") && PoolInv(as(x, "*Runtime"))
 //@   callsite (*Runtime).executeList 0 requires [extends-renders-root-ancestor] list == RootOf(caller.t).Root
 //@   callsite (*Runtime).executeList 0 requires [execution-state-determined-by-inputs] st.scope.blocks == caller.t.processedBlocks && st.scope.variables == caller.variables && st.scope.parent == nil && st.escapeeWriter.set == caller.t.set && st.escapeeWriter.Writer == caller.w && st.content == nil && ite(caller.data != nil, st.context == RvOf(caller.data), !RvValid(st.context))
@@ -541,27 +626,29 @@ package jet
 // ---- exec / includeIfExists built-ins (default.go) ---------------------------------------------------------
 
 //@ func init#1$4
-//@   props C09 C07 C01
-//@   nocrash
-//@   requires RtOK(a.runtime)
+//@   props C09 C07 C01 C12
+//@   requires RtOK(a.runtime) && WFArgs(a.args)
 //@   modifies @Interp
-//@   loop 0 invariant [root-walk] RtOK(a.runtime) && t != nil && RootOf(t) == RootOf(lastret("(*Set).GetTemplate", 0)) && root == t.Root && a.runtime.scope.blocks == lastret("(*Set).GetTemplate", 0).processedBlocks && a.runtime.scope.parent == old(a.runtime.scope) && a.runtime.content == old(a.runtime.content) && a.runtime.context == old(a.runtime.context) && deferred(0) && deferred(1) && a.runtime.escapeeWriter.Writer == ioutil.Discard && w == old(a.runtime.escapeeWriter.Writer)
+//@   loop 0 invariant [root-walk] RtOK(a.runtime) && t != nil && TplOK(t) && RootOf(t) == RootOf(lastret("(*Set).GetTemplate", 0)) && root == t.Root && a.runtime.scope.blocks == lastret("(*Set).GetTemplate", 0).processedBlocks && a.runtime.scope.parent == old(a.runtime.scope) && a.runtime.content == old(a.runtime.content) && a.runtime.context == old(a.runtime.context) && deferred(0) && deferred(1) && a.runtime.escapeeWriter.Writer == ioutil.Discard && w == old(a.runtime.escapeeWriter.Writer)
 //@   ensures [exec-balanced] SameS(a.runtime)
 //@   callsite (*Runtime).executeList 0 requires [exec-discards-output] st.escapeeWriter.Writer == ioutil.Discard
 //@   callsite (*Runtime).executeList 0 requires [exec-runs-root-with-its-blocks] list == RootOf(lastret("(*Set).GetTemplate", 0)).Root && st.scope.blocks == lastret("(*Set).GetTemplate", 0).processedBlocks && st.scope.parent == old(a.runtime.scope)
 //@   callsite (*Runtime).executeList count 1
+//@   anypanic
+//@   exsures [runtime-valid-on-panic] RtX(a.runtime)
 
 //@ func init#1$3
-//@   props C09 C07
-//@   nocrash
-//@   requires RtOK(a.runtime)
+//@   props C09 C07 C12
+//@   requires RtOK(a.runtime) && WFArgs(a.args)
 //@   modifies @Interp
-//@   loop 0 invariant [root-walk] RtOK(a.runtime) && t != nil && RootOf(t) == RootOf(lastret("(*Set).GetTemplate", 0)) && root == t.Root && a.runtime.scope.blocks == lastret("(*Set).GetTemplate", 0).processedBlocks && a.runtime.scope.parent == old(a.runtime.scope) && a.runtime.content == old(a.runtime.content) && a.runtime.context == old(a.runtime.context) && deferred(0) && a.runtime.escapeeWriter.Writer == old(a.runtime.escapeeWriter.Writer)
+//@   loop 0 invariant [root-walk] RtOK(a.runtime) && t != nil && TplOK(t) && RootOf(t) == RootOf(lastret("(*Set).GetTemplate", 0)) && root == t.Root && a.runtime.scope.blocks == lastret("(*Set).GetTemplate", 0).processedBlocks && a.runtime.scope.parent == old(a.runtime.scope) && a.runtime.content == old(a.runtime.content) && a.runtime.context == old(a.runtime.context) && deferred(0) && a.runtime.escapeeWriter.Writer == old(a.runtime.escapeeWriter.Writer)
 //@   ensures [includeIfExists-balanced] SameS(a.runtime)
 //@   check [includeIfExists-missing-renders-nothing] ncalls("(*Runtime).executeList") == 0 ==> result == hiddenFalse
 //@   check [includeIfExists-existing-renders-once] ncalls("(*Runtime).executeList") == 1 ==> result == hiddenTrue
 //@   callsite (*Runtime).executeList 0 requires [includeIfExists-runs-root-with-its-blocks] list == RootOf(lastret("(*Set).GetTemplate", 0)).Root && st.scope.blocks == lastret("(*Set).GetTemplate", 0).processedBlocks && st.scope.parent == old(a.runtime.scope) && st.escapeeWriter.Writer == old(a.runtime.escapeeWriter.Writer)
 //@   callsite (*Runtime).executeList count 1
+//@   anypanic
+//@   exsures [runtime-valid-on-panic] RtX(a.runtime)
 
 // ---- C01: every rendered value is escaped exactly once; only SafeWriters bypass ---------------------------
 
@@ -607,3 +694,59 @@ package jet
 //@ frame {C01} stores Set.escapee only-in NewSet, WithSafeWriter
 //@ frame {C01} loads escapeeWriter.Writer only-in (*escapeeWriter).Write, (*Runtime).executeList, (*Runtime).evalSafeWriter, (*Runtime).executeTry, init#1$4, jsonRenderer
 //@ frame {C01} calls fastprinter.PrintValue only-in (*Runtime).executeList, (*Runtime).evalSafeWriter
+
+// reflect type objects of the interfaces the interpreter tests for (package variables, written only by init)
+//@ immutable {C12,C06,C14,C17,C01} global rendererType
+//@ immutable {C12,C06,C14,C17,C10,C05} global rangerType
+//@ immutable {C12,C06,C14,C17} global funcType
+//@ immutable {C12,C06,C14,C17,C01} global safeWriterType
+//@ immutable {C12,C06,C14,C17,C10,C11} global cachedStructsFieldIndex
+//@ immutable {C09} global ioutil.Discard
+// ParamT(t, k): the type the k-th actual argument of a call to a function of type t must be assignable to
+//@ ufunc ParamT(reflect.Type, int) reflect.Type
+//@ axiom forallT(t, "reflect.Type", forallT(k, "int", ParamT(t, k) == ite(TVariadic(t) && k >= TNumIn(t) - 1, TElem(TIn(t, TNumIn(t) - 1)), TIn(t, k))))
+//@ axiom forallT(v, "reflect.Value", forallT(t, "reflect.Type", RvTypeOf(RvConv(v, t)) == t && TAssign(t, t)))
+//@ axiom funcType != nil && cachedStructsFieldIndex != nil && ioutil.Discard != nil
+//@ axiom forallT(v, "reflect.Value", RvKind(v) == 19 && !RvIsNil(v) && istype(RvInterface(v), "Func") ==> as(RvInterface(v), "Func") != nil)
+//@ axiom forallT(t, "reflect.Type", forallT(u, "reflect.Type", TKind(t) == 23 && TKind(TElem(t)) == 8 && TKind(u) == 24 ==> TConv(t, u)))
+//@ axiom forallT(v, "reflect.Value", RvValid(v) && RvTypeOf(v) == safeWriterType ==> istype(RvInterface(v), "SafeWriter"))
+//@ axiom forallT(v, "reflect.Value", TImpl(RvTypeOf(v), rendererType) ==> implementsI(RvInterface(v), "Renderer"))
+//@ axiom forallT(v, "reflect.Value", TImpl(RvTypeOf(v), rangerType) ==> implementsI(RvInterface(v), "Ranger"))
+//@ axiom forallT(v, "reflect.Value", TAssign(funcType, RvTypeOf(v)) ==> istype(RvInterface(v), "Func"))
+
+// ---- the built-in function table (default.go init) --------------------------------------------------------
+// RvFn(v): the function a reflect.Value made from a func value holds
+//@ ufunc RvFn(reflect.Value) int
+//@ axiom forallT(i, "interface{}", RvFn(RvOf(i)) == refof(i))
+//@ func init#1
+//@   props C14
+//@   modifies *
+//@   check [string-builtins-are-the-documented-go-functions] {C14} RvFn(defaultVariables["lower"]) == strings.ToLower && RvFn(defaultVariables["upper"]) == strings.ToUpper && RvFn(defaultVariables["hasPrefix"]) == strings.HasPrefix && RvFn(defaultVariables["hasSuffix"]) == strings.HasSuffix && RvFn(defaultVariables["repeat"]) == strings.Repeat && RvFn(defaultVariables["replace"]) == strings.Replace && RvFn(defaultVariables["split"]) == strings.Split && RvFn(defaultVariables["trimSpace"]) == strings.TrimSpace
+//@   check [escaping-builtins-are-the-documented-go-functions] {C14} RvFn(defaultVariables["html"]) == html.EscapeString && RvFn(defaultVariables["url"]) == url.QueryEscape && RvFn(defaultVariables["json"]) == json.Marshal && RvFn(defaultVariables["writeJson"]) == jsonRenderer
+
+// isset(e1, ..., en): true exactly when every argument is set
+//@ func init#1$1
+//@   props C17 C12
+//@   requires RtOK(a.runtime) && WFArgs(a.args)
+//@   modifies @Interp
+//@   loop 0 invariant 0 <= i && visits("(*Arguments).IsSet", 0) == i && i <= len(a.args.Exprs) + ite(a.pipedVal != nil && !a.args.HasPipeSlot, 1, 0)
+//@   loop 0 entry [isset-examines-every-argument] {C17} i == 0
+//@   callsite (*Arguments).IsSet 0 requires [isset-examines-every-argument-in-turn] {C17} argumentIndex == caller.i
+//@   callsite (*Arguments).IsSet count 1
+//@   check [isset-is-false-only-for-an-unset-argument] {C17} result == valueBoolFALSE && valueBoolFALSE != valueBoolTRUE ==> visits("(*Arguments).IsSet", 0) >= 1 && !lastret("(*Arguments).IsSet", 0)
+//@   check [isset-is-true-only-when-every-argument-was-examined] {C17} result == valueBoolTRUE && valueBoolFALSE != valueBoolTRUE ==> visits("(*Arguments).IsSet", 0) == len(a.args.Exprs) + ite(a.pipedVal != nil && !a.args.HasPipeSlot, 1, 0)
+
+// len(x)
+//@ func init#1$2
+//@   props C14 C12
+//@   requires RtOK(a.runtime) && WFArgs(a.args)
+//@   modifies @Interp
+//@   anypanic
+//@   callsite (*Arguments).Get 0 requires argumentIndex == 0
+//@ func (*Arguments).RequireNumOfArguments
+//@   props C14
+//@   requires a != nil
+//@   ensures [argument-count-is-in-range] (min < 0 || len(a.args.Exprs) + ite(Implicit(a), 1, 0) >= min) && (max < 0 || len(a.args.Exprs) + ite(Implicit(a), 1, 0) <= max)
+//@ func (*Arguments).Panicf
+//@   props C14
+//@   noreturn
